@@ -8,6 +8,7 @@ import build, obs, streams
 TIERS = {
     # stream -> (quick params, thorough params)
     "fn_c04": ({"n": 6000}, {"n": 120000}),
+    "pages": ({"shards": 4, "histories": 6, "length": 60}, {"shards": 16, "histories": 60, "length": 90}),
     "own": ({"n": 120}, {"n": 4000}),
     "matrix": ({"shards": 4, "histories": 4, "length": 40}, {"shards": 16, "histories": 40, "length": 60}),
     "world": ({"shards": 8, "histories": 30, "length": 60}, {"shards": 16, "histories": 500, "length": 80}),
@@ -56,10 +57,10 @@ def get_stream(name, seed, tier, b, fp):
         shutil.rmtree(d, ignore_errors=True)
         os.makedirs(d)
         meta = {"name": name, "dir": d, "prefixes": [], "params": params, "gen_s": 0.0, "model_s": 0.0}
-        if name.startswith("world") or name == "matrix":
+        if name.startswith("world") or name in ("matrix", "pages"):
             variant = "miniwasm" if name == "world_mini" else "default"
             backend = "miniwasm" if name == "world_mini" else "osmosis"
-            mode = "matrix" if name == "matrix" else "world"
+            mode = name if name in ("matrix", "pages") else "world"
             jobs = [(b.exe[variant], mode, backend, seed * 1000 + k, params["histories"], params["length"],
                      os.path.join(d, "s%d" % k), b.model) for k in range(params["shards"])]
             with cf.ThreadPoolExecutor(max_workers=16) as ex:
